@@ -75,7 +75,7 @@ func (a *corrApp) handle(kind, sess string, seq int32, meta func() string, read 
 	tag, pad := read()
 	m0 := meta()
 	my := atomic.AddInt64(&a.enters, 1)
-	a.rec.Emit("HEnter", "h", h, "s", sess, "kind", kind, "seq", seq, "arg", tag, "padlen", len(pad), "padsum", Sum(pad), "meta", m0)
+	a.rec.Emit("HEnter", "h", h, "s", sess, "kind", kind, "seq", seq, "arg", tag, "padlen", len(pad), "padsum", Sum(pad), "meta", m0, "metaok", m0 == MetaViewFor(tag))
 	if a.hold > 0 {
 		// stay inside the handler while other messages are read and handled (pooled buffers get reused)
 		WaitUntil(15*time.Millisecond, func() bool { return atomic.LoadInt64(&a.enters) >= my+int64(a.hold) })
@@ -90,9 +90,9 @@ func (a *corrApp) handle(kind, sess string, seq int32, meta func() string, read 
 type CT struct{ erpc.CallCtx }
 
 func (c *CT) Call(arg *Arg) (*Res, *erpc.Status) {
-	tag, pad := curCorr.handle("call", Name(c.Session()), c.Seq(), func() string { return string(c.PeekMeta(MetaKey)) },
+	tag, pad := curCorr.handle("call", Name(c.Session()), c.Seq(), func() string { return metaView(c) },
 		func() (string, string) { return arg.Tag, arg.Pad })
-	c.SetMeta(MetaKey, GM("m-"+tag))
+	replyMeta(c, tag)
 	return &Res{Tag: F(tag), Pad: pad}, nil
 }
 
@@ -100,7 +100,7 @@ func (c *CT) Call(arg *Arg) (*Res, *erpc.Status) {
 type PT struct{ erpc.PushCtx }
 
 func (c *PT) Push(arg *Arg) *erpc.Status {
-	curCorr.handle("push", Name(c.Session()), c.Seq(), func() string { return string(c.PeekMeta(MetaKey)) },
+	curCorr.handle("push", Name(c.Session()), c.Seq(), func() string { return metaView(c) },
 		func() (string, string) { return arg.Tag, arg.Pad })
 	return nil
 }
@@ -118,9 +118,9 @@ func splitTP(s string) (string, string) {
 }
 
 func (c *CS) Call(arg *PStr) (*PStr, *erpc.Status) {
-	tag, pad := curCorr.handle("call", Name(c.Session()), c.Seq(), func() string { return string(c.PeekMeta(MetaKey)) },
+	tag, pad := curCorr.handle("call", Name(c.Session()), c.Seq(), func() string { return metaView(c) },
 		func() (string, string) { return splitTP(string(*arg)) })
-	c.SetMeta(MetaKey, GM("m-"+tag))
+	replyMeta(c, tag)
 	r := PStr(F(tag) + "|" + pad)
 	return &r, nil
 }
@@ -128,7 +128,7 @@ func (c *CS) Call(arg *PStr) (*PStr, *erpc.Status) {
 type PS struct{ erpc.PushCtx }
 
 func (c *PS) Push(arg *PStr) *erpc.Status {
-	curCorr.handle("push", Name(c.Session()), c.Seq(), func() string { return string(c.PeekMeta(MetaKey)) },
+	curCorr.handle("push", Name(c.Session()), c.Seq(), func() string { return metaView(c) },
 		func() (string, string) { return splitTP(string(*arg)) })
 	return nil
 }
@@ -137,18 +137,67 @@ func (c *PS) Push(arg *PStr) *erpc.Status {
 type CP struct{ erpc.CallCtx }
 
 func (c *CP) Call(arg *pb.Payload) (*pb.Payload, *erpc.Status) {
-	tag, pad := curCorr.handle("call", Name(c.Session()), c.Seq(), func() string { return string(c.PeekMeta(MetaKey)) },
+	tag, pad := curCorr.handle("call", Name(c.Session()), c.Seq(), func() string { return metaView(c) },
 		func() (string, string) { return arg.ServiceMethod, string(arg.Body) })
-	c.SetMeta(MetaKey, GM("m-"+tag))
+	replyMeta(c, tag)
 	return &pb.Payload{ServiceMethod: F(tag), Body: []byte(pad)}, nil
 }
 
 type PP struct{ erpc.PushCtx }
 
 func (c *PP) Push(arg *pb.Payload) *erpc.Status {
-	curCorr.handle("push", Name(c.Session()), c.Seq(), func() string { return string(c.PeekMeta(MetaKey)) },
+	curCorr.handle("push", Name(c.Session()), c.Seq(), func() string { return metaView(c) },
 		func() (string, string) { return arg.ServiceMethod, string(arg.Body) })
 	return nil
+}
+
+// metaVisitor is the part of the handler contexts used to read the request metadata.
+type metaVisitor interface {
+	VisitMeta(f func(key, value []byte))
+}
+
+// metaView renders the complete request metadata (every key, in order, with its value).
+func metaView(c metaVisitor) string {
+	var b []byte
+	c.VisitMeta(func(k, v []byte) {
+		b = append(b, k...)
+		b = append(b, '=')
+		b = append(b, v...)
+		b = append(b, ';')
+	})
+	return string(b)
+}
+
+// MetaFor is the metadata a sender attaches to the message with this tag: several keys, an empty
+// value in the middle, a repeated key.
+func MetaFor(tag string) []erpc.MessageSetting {
+	return []erpc.MessageSetting{
+		erpc.WithSetMeta(MetaKey, "m-"+tag),
+		erpc.WithAddMeta("e"+tag[len(tag)-1:], ""),
+		erpc.WithAddMeta("r", "1-"+tag),
+		erpc.WithAddMeta("r", "2-"+tag),
+	}
+}
+
+// MetaViewFor is what the receiver must see for MetaFor(tag).
+func MetaViewFor(tag string) string {
+	return MetaKey + "=m-" + tag + ";e" + tag[len(tag)-1:] + "=;r=1-" + tag + ";r=2-" + tag + ";"
+}
+
+type metaSetter interface {
+	SetMeta(key, value string)
+	AddMeta(key, value string)
+}
+
+func replyMeta(c metaSetter, tag string) {
+	c.SetMeta(MetaKey, GM("m-"+tag))
+	c.AddMeta("re", "")
+	c.AddMeta("rz", "z-"+tag)
+}
+
+// ReplyMetaViewFor is the reply metadata the caller must see.
+func ReplyMetaViewFor(tag string) string {
+	return MetaKey + "=" + GM("m-"+tag) + ";re=;rz=z-" + tag + ";"
 }
 
 func corrRoutes(p erpc.Peer) {
@@ -289,7 +338,7 @@ func runCorr(rec *Rec, sc *CorrScenario, n int) {
 				for i := 0; i < sc.Ops; i++ {
 					tag := fmt.Sprintf("%s.%d.%d.%d", sc.ID, si, g, i)
 					pad := PadFor(tag, sc.Size)
-					settings := []erpc.MessageSetting{codecSetting(sc.Codec), erpc.WithSetMeta(MetaKey, "m-"+tag)}
+					settings := append([]erpc.MessageSetting{codecSetting(sc.Codec)}, MetaFor(tag)...)
 					if ps := pipeSetting(sc.Pipe); ps != nil {
 						settings = append(settings, ps)
 					}
@@ -331,9 +380,16 @@ func runCorr(rec *Rec, sc *CorrScenario, n int) {
 						rt, rp := read()
 						rm := ""
 						if m := cmd.InputMeta(); m != nil {
-							rm = string(m.Peek(MetaKey))
+							var b []byte
+							m.VisitAll(func(k, v []byte) {
+								b = append(b, k...)
+								b = append(b, '=')
+								b = append(b, v...)
+								b = append(b, ';')
+							})
+							rm = string(b)
 						}
-						rec.Emit("CallDone", "c", tag, "code", st.Code(), "msg", st.Msg(), "okres", rt == F(tag), "okpad", rp == pad, "okmeta", rm == GM("m-"+tag))
+						rec.Emit("CallDone", "c", tag, "code", st.Code(), "msg", st.Msg(), "okres", rt == F(tag), "okpad", rp == pad, "okmeta", rm == ReplyMetaViewFor(tag), "rmeta", rm)
 					}
 					atomic.AddInt64(&finished, 1)
 				}
